@@ -26,6 +26,12 @@
 #include "encode.h"             /* encode() */
 #include "process.h"            /* struct process */
 
+#ifdef KJN_LBZIP2_VERIF
+#include "verif.h"
+extern void (*verif_dump_hook)(FILE *);
+extern void (*verif_check_hook)(void);
+#endif
+
 /* transmit threshold */
 #define TRANSM_THRESH 2
 
@@ -89,6 +95,9 @@ do_collect(void)
   wblk->enc = xmalloc(encoder_alloc_size(bs100k * 100000u));
   encoder_init(wblk->enc, bs100k * 100000u, CLUSTER_FACTOR);
 
+#ifdef KJN_LBZIP2_VERIF
+  verif_delay("collect", iblk->pos.major, iblk->pos.minor);
+#endif
   /* Collect as much data as we can. */
   wblk->weight = iblk->left;
   collect(wblk->enc, iblk->next, &iblk->left);
@@ -219,6 +228,9 @@ do_transmit(void)
   /* Allocate the output buffer and transmit the block into it. */
   wblk->buffer = XNMALLOC((wblk->size + 3) / 4, uint32_t);
 
+#ifdef KJN_LBZIP2_VERIF
+  verif_delay("transmit", wblk->pos.major, wblk->pos.minor);
+#endif
   transmit(wblk->enc, wblk->buffer);
   free(wblk->enc);
 
@@ -321,6 +333,27 @@ write_trailer(void)
 }
 
 
+#ifdef KJN_LBZIP2_VERIF
+static unsigned verif_cap_in, verif_cap_wu, verif_cap_out;
+
+static void
+verif_dump_compress(FILE *fp)
+{
+  fprintf(fp, " ct=%d uw=%d coll=%u trans=%u reord=%u order=%ju.%ju next=%ju",
+          (int)collect_token, unfinished_work != NULL, size(coll_q),
+          size(trans_q), size(reord_q), (uintmax_t)order.major,
+          (uintmax_t)order.minor, next_id);
+}
+
+static void
+verif_check_compress(void)
+{
+  VERIF_ASSERT(size(coll_q) <= verif_cap_in);
+  VERIF_ASSERT(size(trans_q) <= verif_cap_wu);
+  VERIF_ASSERT(size(reord_q) <= verif_cap_out);
+}
+#endif
+
 static void
 init(void)
 {
@@ -334,6 +367,13 @@ init(void)
 
   assert(1 <= bs100k && bs100k <= 9);
   combined_crc = 0;
+#ifdef KJN_LBZIP2_VERIF
+  verif_cap_in = in_slots;
+  verif_cap_wu = work_units;
+  verif_cap_out = out_slots;
+  verif_dump_hook = verif_dump_compress;
+  verif_check_hook = verif_check_compress;
+#endif
 
   write_header();
 }
@@ -342,6 +382,13 @@ init(void)
 static void
 uninit(void)
 {
+#ifdef KJN_LBZIP2_VERIF
+  VERIF_ASSERT(empty(coll_q) && empty(trans_q) && empty(reord_q));
+  VERIF_ASSERT(collect_token);
+  VERIF_ASSERT(unfinished_work == NULL);
+  verif_dump_hook = NULL;
+  verif_check_hook = NULL;
+#endif
   write_trailer();
 
   pqueue_uninit(coll_q);
